@@ -128,6 +128,12 @@ def run(ctx):
     # ------------------------------------------------------------------ DPSK family
     dpsk = [("DPSK", "order=%d,gray=%s" % (o, g), (lambda o=o, g=g: M.DPSKModulator(o, gray_coding=g)), (lambda o=o, g=g: M.DPSKDemodulator(o, gray_coding=g)), o.bit_length() - 1)
             for o in (2, 4, 8, 16) for g in (True, False)]
+    # the same schemes selected through the alternative keywords (bits_per_symbol=, gray_coded=)
+    for o in (2, 4, 8, 16):
+        b_ = o.bit_length() - 1
+        dpsk.append(("DPSK", "order=%d,gray=False" % o, (lambda b_=b_: M.DPSKModulator(bits_per_symbol=b_, gray_coded=False)), (lambda b_=b_: M.DPSKDemodulator(bits_per_symbol=b_, gray_coded=False)), b_))
+        dpsk.append(("DPSK", "order=%d,gray=False" % o, (lambda o=o: M.DPSKModulator(order=o, gray_coded=False)), (lambda o=o: M.DPSKDemodulator(order=o, gray_coded=False)), b_))
+        dpsk.append(("DPSK", "order=%d,gray=False" % o, (lambda o=o: M.DPSKModulator(o, gray_coding=False)), (lambda o=o: M.DPSKDemodulator(order=o, gray_coded=False)), b_))
     dpsk.append(("DBPSK", "default", lambda: M.DBPSKModulator(), lambda: M.DBPSKDemodulator(), 1))
     dpsk.append(("DQPSK", "default", lambda: M.DQPSKModulator(), lambda: M.DQPSKDemodulator(), 2))
     for name, cfg, mkm, mkd, b in dpsk:
